@@ -17,6 +17,7 @@
 import HL.Lemmas.Refs
 import HL.Lemmas.WsDocs
 import HL.Model.Pipeline
+import HL.Lemmas.PayeeRange
 namespace HL.Props.C09
 open HL HL.Ast HL.Refs HL.Spec.Occ HL.Lemmas.Refs
 
@@ -441,12 +442,14 @@ def fileNB : FileT :=
     spans := [sp .payee shop 0 11 15, sp .account aGrin 1 2 6, sp .commodity usd 1 10 13],
     lns := ["2024-01-01 Shop".toList, "  a:😀  1 USD".toList, []] }
 
-/-- `2024-01-01 (12) Shop` / `  a:b  1`: the payee's position is estimated from the date. -/
+/-- `2024-01-01 (12) Shop` / `  a:b  1`: a code stands between the date and the payee; the
+    payee's position is read off the header line of the file's text. -/
 def fileCode : FileT :=
   { path := "a.journal",
     tree := { transactions := [txn (R 1 1 1 11) shop [post ⟨ab, R 2 3 2 6⟩ none] [49, 50]],
               directives := [], comments := [], includes := [] },
-    spans := [sp .payee shop 0 16 20, sp .account ab 1 2 5] }
+    spans := [sp .payee shop 0 16 20, sp .account ab 1 2 5],
+    lns := ["2024-01-01 (12) Shop".toList, "  a:b  1".toList, []] }
 
 def aB : Bytes := [65, 32, 66]   -- A B
 /-- `commodity "A B"` / `2024-01-01 Shop` / `  a:b  1 "A B"`: the parser records the token's End
@@ -550,13 +553,129 @@ theorem pinned_utf16_columns_counterexample :
     references (requestFrom ⟨fileNB, []⟩ fileNB [] ⟨1, 11⟩) true = [⟨"a.journal", ⟨⟨1, 10⟩, ⟨1, 13⟩⟩⟩] :=
   ⟨by decide, ⟨⟨"a.journal", ⟨⟨1, 9⟩, ⟨1, 12⟩⟩⟩, by decide, by decide⟩, by decide, by decide, by decide⟩
 
-/-! #### Known finding `payee-range-estimate` -/
+/-! #### The defect repaired by fix-payee-range.diff (finding `payee-range-estimate`)
 
-theorem payee_range_estimate_counterexample :
-    faithfulB fileCode.lns fileCode.tree fileCode.spans = false ∧
-    ∃ l, l ∈ findReferences noTexts .payee shop (some (single fileCode)) fileCode.path none true ∧
-         l ∉ occurrences [(fileCode.path, fileCode.spans)] .payee shop true :=
-  ⟨by decide, ⟨"a.journal", ⟨⟨0, 11⟩, ⟨0, 15⟩⟩⟩, by decide, by decide⟩
+The tree has no position for the payee.  The code as pinned placed it one blank after the date
+(three columns after it with a status mark), which is what the model still does for a file
+without text (`noTexts`, `lns := []`): with a code, a secondary date or wider spacing the
+location reported for the payee was not an occurrence (`2024-01-01 (12) Shop`: 0:11–0:15 is
+`(12)`), references from the real payee found nothing and a rename overwrote the code.  The
+repaired server reads the header line of the file's text (`HL.PayeeRange`): the tree read with
+its text is faithful and the answers are the occurrences. -/
+
+theorem pinned_payee_range_estimate_counterexample :
+    faithfulB [] fileCode.tree fileCode.spans = false ∧
+    (∃ l, l ∈ findReferences noTexts .payee shop (some (single fileCode)) fileCode.path none true ∧
+         l ∉ occurrences [(fileCode.path, fileCode.spans)] .payee shop true) ∧
+    -- the rename edit 0:11–0:15 overwrote the code and left the payee behind
+    (∀ new : List Char, applyEditsBackwards "2024-01-01 (12) Shop".toList [(11, 15)] new =
+        "2024-01-01 ".toList ++ new ++ " Shop".toList) ∧
+    -- the cursor on the payee was on no symbol
+    findDefinitionTarget [] fileCode.tree ⟨0, 17⟩ = none :=
+  ⟨by decide, ⟨⟨"a.journal", ⟨⟨0, 11⟩, ⟨0, 15⟩⟩⟩, by decide, by decide⟩,
+   fun new => by rw [rename_substitutes _ _ _ (by simp [spansOK])]; simp [substSpans],
+   by decide⟩
+
+/-- With the text the tree is faithful; references from every cursor position of the payee
+    lists the payee, the code is no symbol any more, prepareRename offers the payee. -/
+theorem payee_header_exact :
+    faithfulB fileCode.lns fileCode.tree fileCode.spans = true ∧
+    guardsOff ⟨fileCode, []⟩ (single fileCode) = true ∧
+    (∀ ch ∈ [16, 17, 20], references (requestFrom ⟨fileCode, []⟩ fileCode [] ⟨0, ch⟩) true =
+      [⟨"a.journal", ⟨⟨0, 16⟩, ⟨0, 20⟩⟩⟩]) ∧
+    (∀ ch ∈ [11, 13, 15], references (requestFrom ⟨fileCode, []⟩ fileCode [] ⟨0, ch⟩) true = []) ∧
+    prepareRename (requestFrom ⟨fileCode, []⟩ fileCode [] ⟨0, 18⟩) = some ⟨⟨0, 16⟩, ⟨0, 20⟩⟩ := by
+  decide
+
+/-- **rename_substitutes for a payee behind a code.**  Any new name: one edit, with the range of
+    the payee's lexeme … -/
+theorem rename_payee_header (new : Bytes) :
+    rename (requestFrom ⟨fileCode, []⟩ fileCode [] ⟨0, 17⟩) new =
+      some [("a.journal", [⟨⟨⟨0, 16⟩, ⟨0, 20⟩⟩, new⟩])] := by
+  have ht : findDefinitionTarget fileCode.lns fileCode.tree ⟨0, 17⟩ =
+      some ⟨.payee, shop, ⟨⟨0, 16⟩, ⟨0, 20⟩⟩⟩ := by decide
+  have hr : findReferences (textsOf ⟨fileCode, []⟩) .payee shop (some (resolvedOf ⟨fileCode, []⟩ []))
+      fileCode.path (some fileCode.tree) true = [⟨"a.journal", ⟨⟨0, 16⟩, ⟨0, 20⟩⟩⟩] := by decide
+  simp only [rename, requestFrom, ht, hr]
+  simp [Changes.add]
+
+/-- … and applying it replaces the payee and nothing else: the code stays. -/
+theorem rename_payee_header_text (new : List Char) :
+    applyEditsBackwards "2024-01-01 (12) Shop".toList [(16, 20)] new = "2024-01-01 (12) ".toList ++ new := by
+  rw [rename_substitutes _ _ _ (by simp [spansOK])]; simp [substSpans]
+
+open HL.Spec.HeaderG in
+/-- **payeeNode_header.**  For EVERY header of the grammar (HL/Spec/HeaderG.lean: optional
+    secondary date, status mark and code, any runs of blanks and tabs, `| note`, comment; `pre`
+    is the line up to the end of the date, `cr` what follows the printed header — nothing, or
+    the CR of a CRLF line end): the span the tree's reading gives for the payee is the payee's
+    lexeme, in LSP coordinates — line, UTF-16 offset of its first character, UTF-16 offset just
+    past its last.  So the payee node of such a header is faithful to the text
+    (`Workspace.faithful`), and `refs_exact`, `references_exact`, `prepareRename_exact`,
+    `rename_edits_exact` apply to payees whatever stands between the date and the payee. -/
+theorem payeeNode_header (lns : Lines) (tx : Transaction) (pre : HL.Text.Txt) (h : Header) (cr : HL.Text.Txt)
+    (h1 : 1 ≤ tx.date.range.start.line) (h1' : tx.date.range.start.line ≤ 4294967296)
+    (h2 : 1 ≤ tx.date.range.stop.col)
+    (hl : lns[tx.date.range.start.line - 1]? = some (pre ++ (h.print ++ cr)))
+    (hsmall : HL.Text.u16len (pre ++ (h.print ++ cr)) < 4294967296)
+    (hpre : pre.length = tx.date.range.stop.col - 1) (hw : h.wf = true)
+    (hne : payeeOrDescription tx ≠ []) (hlen : h.payee.length = runeLen (payeeOrDescription tx)) :
+    (payeeNode lns tx).map (TNode.toSpan lns) =
+      [⟨.payee, payeeOrDescription tx,
+        ⟨⟨tx.date.range.start.line - 1, HL.Text.u16len (pre ++ h.lead)⟩,
+         ⟨tx.date.range.start.line - 1, HL.Text.u16len (pre ++ h.lead ++ h.payee)⟩⟩, false⟩] := by
+  have hcol : HL.PayeeRange.payeeStart lns tx.date.range.start.line tx.date.range.stop.col =
+      some (tx.date.range.stop.col + h.lead.length) := by
+    have h0 : tx.date.range.start.line ≠ 0 := by omega
+    simp only [HL.PayeeRange.payeeStart, h0, if_false, hl, Header.print, List.append_assoc]
+    exact HL.Lemmas.PayeeRange.descriptionColumn_header pre h (h.tail ++ cr) _ hw h2 hpre
+  rw [payeeNode_eq, if_neg hne]
+  simp only [List.map_cons, List.map_nil, payNode, payeeRange, hcol, TNode.toSpan, toLsp,
+    u32pred_of_sane _ h1 h1']
+  have h0 : tx.date.range.start.line ≠ 0 := by omega
+  have e1 : (pre ++ (h.print ++ cr)).take (tx.date.range.stop.col + h.lead.length - 1) = pre ++ h.lead := by
+    have : tx.date.range.stop.col + h.lead.length - 1 = (pre ++ h.lead).length := by simp; omega
+    rw [this, Header.print]
+    simp only [← List.append_assoc]
+    rw [List.append_assoc (pre ++ h.lead), List.append_assoc (pre ++ h.lead), List.take_left]
+  have e2 : (pre ++ (h.print ++ cr)).take (tx.date.range.stop.col + h.lead.length + runeLen (payeeOrDescription tx) - 1) =
+      pre ++ h.lead ++ h.payee := by
+    have : tx.date.range.stop.col + h.lead.length + runeLen (payeeOrDescription tx) - 1 =
+        (pre ++ h.lead ++ h.payee).length := by simp; omega
+    rw [this, Header.print]
+    simp only [← List.append_assoc]
+    rw [List.append_assoc (pre ++ h.lead ++ h.payee), List.take_left]
+  have b1 := u16len_take_le' (pre ++ (h.print ++ cr)) (tx.date.range.stop.col + h.lead.length - 1)
+  have b2 := u16len_take_le' (pre ++ (h.print ++ cr))
+    (tx.date.range.stop.col + h.lead.length + runeLen (payeeOrDescription tx) - 1)
+  simp only [convChar, h0, if_false, hl]
+  rw [e1] at b1 ⊢
+  rw [e2] at b2 ⊢
+  rw [Nat.mod_eq_of_lt (by omega), Nat.mod_eq_of_lt (by omega)]
+
+/-- Text in, spans out: the lexer and parser models (`parser.Parse`) on a CRLF document whose
+    first header carries a secondary date, a status mark, a code, a tab before the payee and
+    `| note ; comment`, the second one three blanks; the payee starts with a character outside the
+    BMP.  The tree read with its text is faithful to the spans the text was written from, and a
+    non-vacuity instance of `payeeNode_header`'s hypotheses is the first header. -/
+def payeeText : String :=
+  "2024-01-01=2024-01-02 * (12)\t😀 Shop | note ; c\r\n  a:b  1\r\n2024/1/3   😀 Shop\r\n  a:b  2\r\n"
+def gshop : Bytes := "😀 Shop".toUTF8.toList
+theorem payee_header_parsed_faithful :
+    faithfulB (HL.Text.lines payeeText.toList) (HL.Pipeline.parseText Classes.go payeeText.toUTF8.toList).1
+      [sp .payee gshop 0 29 36, sp .account ab 1 2 5, sp .payee gshop 2 11 18, sp .account ab 3 2 5] = true := by
+  decide +kernel
+
+example :
+    let h : HL.Spec.HeaderG.Header := {
+      date2 := some ([], [], "2024-01-02".toList), status := some (" ".toList, '*'),
+      code := some (" ".toList, "12".toList), gap := "\t".toList, payee := "😀 Shop".toList,
+      note := some (" ".toList, " ".toList, "note".toList), comment := some (" ".toList, " c".toList) }
+    (HL.Text.lines payeeText.toList)[0]? = some ("2024-01-01".toList ++ (h.print ++ ['\r'])) ∧ h.wf = true ∧
+    h.payee.length = runeLen gshop ∧
+    HL.Text.u16len ("2024-01-01".toList ++ h.lead) = 29 ∧
+    HL.Text.u16len ("2024-01-01".toList ++ h.lead ++ h.payee) = 36 := by
+  decide +kernel
 
 /-! #### The defect repaired by fix-quoted-commodity-directive.diff (finding `quoted-commodity-directive`)
 
